@@ -18,6 +18,7 @@ import (
 	"runtime"
 	"sort"
 	"strings"
+	"sync/atomic"
 	"time"
 
 	logger "github.com/multiversx/mx-chain-logger-go"
@@ -351,6 +352,8 @@ func (r *refLRU) keys() []string {
 	}
 	return out
 }
+
+var oneShotBroken atomic.Bool
 
 // ---- handler invocations ----
 
@@ -731,7 +734,8 @@ func (comp) Run(h *core.History, scratch string) *core.Result {
 		res.Failf("C15", -1, "handler invocations after the history ended: %s", fmtInvs(late))
 	}
 	// a one-shot handler: it unregisters ITSELF from inside its invocation (and reads the cache); afterwards the registry still answers
-	{
+	// (once this has failed in a run of the binary it is not tried again: every further history would wait for the watchdog)
+	if !oneShotBroken.Load() {
 		const oneShot = "verif-one-shot"
 		done := make(chan struct{}, 4)
 		cache.RegisterHandler(func(key []byte, value interface{}) {
@@ -760,6 +764,7 @@ func (comp) Run(h *core.History, scratch string) *core.Result {
 			}
 		}
 		if !alive {
+			oneShotBroken.Store(true)
 			res.Failf("C15", -1, "a handler that calls UnRegisterHandler on itself from inside its invocation never returned, or RegisterHandler / UnRegisterHandler did not return afterwards (handlers invoked while the registry is locked)")
 		}
 	}
